@@ -112,7 +112,7 @@ struct spai1 {
                         B[marker[a.col()] + J.size() * (j - row_beg)] = a.value();
                 }
 
-                qr.solve(J.size(), I.size(), &B[0], &ek[0], &Ainv->val[row_beg],
+                qr.solve(J.size(), I.size(), B.data(), ek.data(), Ainv->val + row_beg,
                         amgcl::detail::col_major);
 
                 for(size_t j = 0; j < J.size(); ++j)
